@@ -306,9 +306,23 @@ def run(prog: Program, rep, tier="quick"):
            f"python loop updates {upd}; rust has `copy_start += to_copy; copy_len -= to_copy`: {rs_upd}", cd.node.lineno)
     eco_py = norm(m.funcs["_encode_copy_operation"].node, 10000)
     eco_rs = rf.fns["encode_copy_operation"].text()
+    eco_n = m.funcs["_encode_copy_operation"].node
+    rng = [F.try_fold(lp.iter.args[0]) for lp in ast.walk(eco_n) if isinstance(lp, ast.For) and isinstance(lp.iter, ast.Call) and callee_name(lp.iter) == "range"
+           and len(lp.iter.args) == 1]
+    flag_ofs = []
+    for x in ast.walk(eco_n):
+        if isinstance(x, ast.AugAssign) and isinstance(x.op, ast.BitOr) and isinstance(x.value, ast.BinOp) and isinstance(x.value.op, ast.LShift) \
+                and F.try_fold(x.value.left) == 1:
+            sh = x.value.right
+            if isinstance(sh, ast.Name):
+                flag_ofs.append(0)
+            elif isinstance(sh, ast.BinOp) and isinstance(sh.op, ast.Add):
+                k = F.try_fold(sh.left) if not isinstance(sh.left, ast.Name) or F.try_fold(sh.left) is not None else F.try_fold(sh.right)
+                k = k if isinstance(k, int) else F.try_fold(sh.right)
+                flag_ofs.append(k)
     rep.ob("R03.5", PACK, "_encode_copy_operation", "copy op: 4 offset bytes, 2 length bytes, flag bits 0-3 and 4-5 in both encoders",
-           "range(4)" in eco_py and "range(2)" in eco_py and "1 << 4 + i" in eco_py and "0 .. 4" in eco_rs and "0 .. 2" in eco_rs and "1 << ( 4 + i )" in eco_rs,
-           "", m.funcs["_encode_copy_operation"].node.lineno)
+           rng == [4, 2] and flag_ofs == [0, 4] and "0 .. 4" in eco_rs and "0 .. 2" in eco_rs and "1 << ( 4 + i )" in eco_rs,
+           f"python: loops over {rng} bytes, flag bit offsets {flag_ofs}", eco_n.lineno)
     # each offset / length byte of a copy op is emitted or skipped on its own: no early exit from the byte loops (a zero byte
     # below a non-zero byte is skipped, the higher byte still has to be written)
     eco = m.funcs["_encode_copy_operation"]
@@ -324,21 +338,27 @@ def run(prog: Program, rep, tier="quick"):
     des = m.funcs.get("_delta_encode_size")
     if des is None:
         raise AnalysisError("_delta_encode_size not found")
-    wl = [w_ for w_ in ast.walk(des.node) if isinstance(w_, ast.While)]
+    # idiom independent formulation on the CFG: the decision "another group follows" is either a truthiness test of the
+    # value that is evaluated only AFTER a `>>= 7` (on the way in and around the loop), or a comparison of the unshifted
+    # value equivalent to `> 0x7F`; groups are `value & 0x7F`, the flag is 0x80
+    gd = cfg_of(prog, des)
+    pname = des.node.args.args[0].arg if des.node.args.args else "size"
+    shifts_n = [i for i, n in gd.nodes.items() if n.kind == "stmt" and isinstance(n.ast, ast.AugAssign) and isinstance(n.ast.op, ast.RShift)
+                and isinstance(n.ast.target, ast.Name) and n.ast.target.id == pname and F.try_fold(n.ast.value) == 7]
+    truth_t = [i for i, n in gd.nodes.items() if n.kind == "test" and isinstance(n.ast, ast.Name) and n.ast.id == pname]
+    cmp_t = [(i, var_cmp(n.ast, F)) for i, n in gd.nodes.items() if n.kind == "test" and var_cmp(n.ast, F) is not None
+             and isinstance(var_cmp(n.ast, F)[0], ast.Name) and var_cmp(n.ast, F)[0].id == pname]
     verdict, why = None, ""
-    if len(wl) == 1:
-        t_ = wl[0].test
-        if isinstance(t_, ast.Name):
-            # idiom A: the low group is taken and the value shifted BEFORE the loop test
-            pre = [norm(s_) for s_ in des.node.body if s_ is not wl[0]]
-            verdict = any("& 127" in p_.replace("0x7F", "127").replace("0x7f", "127") for p_ in pre) and any(p_.endswith(">>= 7") for p_ in pre)
-            why = "idiom A without taking the low group / shifting before the loop"
-        else:
-            v = var_cmp(t_, F)
-            if v is not None:
-                verdict = same_int_test(v[1], v[2], ">", 0x7F)
-                why = f"the loop continues while `{norm(t_)}`; a final group needs the loop exactly while the value exceeds 0x7F: sizes whose " \
-                      f"last group is exactly 0x80 are written without a terminating byte"
+    if truth_t and not cmp_t:
+        on_entry = not must_pass(gd, truth_t, shifts_n)
+        around = all(not must_pass(gd, [t_], shifts_n, start=[b_ for b_, l_ in gd.succ[t_] if l_ in ("true", "false")]) for t_ in truth_t)
+        verdict = bool(shifts_n) and on_entry and around
+        why = "the continuation test looks at the value before it was shifted (on entry or around the loop): the last group is " \
+              "followed by a superfluous zero byte or cut off"
+    elif cmp_t and not truth_t:
+        verdict = all(same_int_test(v[1], v[2], ">", 0x7F) or same_int_test(v[1], v[2], "<=", 0x7F) for _, v in cmp_t) and bool(shifts_n)
+        why = f"the loop continues while `{norm(gd.nodes[cmp_t[0][0]].ast)}`; a final group needs the loop exactly while the value exceeds 0x7F: " \
+              f"sizes whose last group is exactly 0x80 are written without a terminating byte"
     if verdict is None:
         raise AnalysisError("_delta_encode_size: varint loop idiom not recognised")
     masks = sorted({F.try_fold(x.right) for x in ast.walk(des.node) if isinstance(x, ast.BinOp) and isinstance(x.op, (ast.BitAnd, ast.BitOr)) and F.try_fold(x.right) is not None})
@@ -351,12 +371,31 @@ def run(prog: Program, rep, tier="quick"):
         raise AnalysisError("DeltaChainIterator._resolve_object not found")
     g = cfg_of(prog, ro)
     ap = [i for i, n in g.nodes.items() for c in node_calls(n) if callee_name(c) == "apply_delta"]
-    guard = [i for i, n in g.nodes.items() if n.kind == "test" and isinstance(n.owner, ast.If)
-             and ("chunks_length" in norm(n.owner.test) or "len(" in norm(n.owner.test)) and "obj_chunks" in norm(n.owner.test)
-             and any(isinstance(s, ast.Raise) for s in n.owner.body)]
+    # however the guard is spelled: following only the edges that mean "payload is empty" (at the length test) and "not a blob"
+    # (at the type test), no return is reachable from the successful apply_delta
+    only = {}
+    for i, n in g.nodes.items():
+        if n.kind != "test":
+            continue
+        t_ = norm(n.ast)
+        v_ = var_cmp(n.ast, F)
+        if v_ is not None and ("chunks_length(" in norm(v_[0]) or "len(" in norm(v_[0])) and "obj_chunks" in norm(v_[0]):
+            if same_int_test(v_[1], v_[2], "==", 0) or same_int_test(v_[1], v_[2], "<=", 0) or same_int_test(v_[1], v_[2], "<", 1):
+                only[i] = "true"
+            elif same_int_test(v_[1], v_[2], "!=", 0) or same_int_test(v_[1], v_[2], ">", 0) or same_int_test(v_[1], v_[2], ">=", 1):
+                only[i] = "false"
+        elif v_ is not None and isinstance(v_[0], ast.Name) and "type" in v_[0].id and v_[2] == 3:
+            if v_[1] == "!=":
+                only[i] = "true"
+            elif v_[1] == "==":
+                only[i] = "false"
+        elif isinstance(n.ast, ast.Call) and callee_name(n.ast) in ("chunks_length", "len") and "obj_chunks" in t_:
+            only[i] = "false"           # truthiness of the length: the false edge is "empty"
+    guard = [i for i in only if "obj_chunks" in norm(g.nodes[i].ast)]
     rets = [i for i, n in g.nodes.items() if n.kind == "stmt" and isinstance(n.ast, ast.Return)]
     starts = [b for a in ap for b, l in g.succ[a] if l not in ("exc", "raise")]
-    bad = must_pass(g, rets, guard, start=starts) if starts else rets
+    r_ = reach(g, starts, include_srcs=True, edge_ok=lambda a_, b_, l_: not (a_ in only and l_ in ("true", "false") and l_ != only[a_])) if starts else set()
+    bad = [x for x in rets if x in r_]
     rep.ob("R03.6", PACK, ro.qual, "result of apply_delta passes the empty-payload test before it is returned", bool(ap) and bool(guard) and not bad,
            "", ro.node.lineno)
     # "no base" is None; an EMPTY base (the empty blob, b"" / []) is a base like any other: the decision is an identity test
